@@ -166,6 +166,9 @@ def run(ctx, model=None):
         check_case(ctx, chain_game(n, rng), model if n <= 2100 else None, exact_ok=False, limit=900.0)
     with impl.forced_debug(False):
         check_case(ctx, gen.slow_corridor(2100, rng), None, exact_ok=False, limit=300.0)
+    import analysis as _an0
+    _an0.optimized_interpreter(ctx, [gen.stopping_game(rng) for _ in range(12)],
+                               "within-tolerance", fields=[3])
     # the probabilities are a function of the description as it is NOW: solve, edit in place, solve again
     from props.c10 import edit_between_solves
     edit_between_solves(ctx, random.Random(ctx.seed + 78), 25 if ctx.quick() else 600, clause="probabilities-of-the-edited-description")
